@@ -26,11 +26,11 @@ func (s *oneShotStream) RecvMsg(m any) error {
 	}
 	return nil
 }
-func (s *oneShotStream) Context() context.Context      { return context.Background() }
-func (s *oneShotStream) SetHeader(metadata.MD) error   { return nil }
-func (s *oneShotStream) SendHeader(metadata.MD) error  { return nil }
-func (s *oneShotStream) SetTrailer(metadata.MD)        {}
-func (s *oneShotStream) SendMsg(any) error             { return nil }
+func (s *oneShotStream) Context() context.Context     { return context.Background() }
+func (s *oneShotStream) SetHeader(metadata.MD) error  { return nil }
+func (s *oneShotStream) SendHeader(metadata.MD) error { return nil }
+func (s *oneShotStream) SetTrailer(metadata.MD)       {}
+func (s *oneShotStream) SendMsg(any) error            { return nil }
 
 // TestDefaultName: the interceptors fill in only empty names and modify nothing else.
 func TestDefaultName(t *testing.T) {
@@ -59,7 +59,7 @@ func TestDefaultName(t *testing.T) {
 			fd := req.ProtoReflect().Descriptor().Fields().ByName("name")
 			hasName = fd != nil && fd.Kind() == protoreflect.StringKind && !fd.IsList()
 			if hasName {
-				req.ProtoReflect().Set(fd, protoreflect.ValueOfString(rapid.SampledFrom([]string{"", "", "given", "x"}).Draw(t, "name")))
+				req.ProtoReflect().Set(fd, protoreflect.ValueOfString(rapid.OneOf(rapid.SampledFrom([]string{"", "", "given", "x", " ", "\t", "\n", "  ", " x", "x ", "\x00", "0", "default-name", "\u00a0", "\u200b"}), rapid.StringN(0, 3, 8)).Draw(t, "name")))
 			}
 		}
 		def := rapid.SampledFrom([]string{"default-name", "d"}).Draw(t, "default")
